@@ -1505,7 +1505,7 @@ impl Scenario for C06 {
     fn components(&self) -> (Vec<&'static str>, Vec<&'static str>) {
         (
             vec![
-                "rpki::rtr::client::Client::{with_initial_version,step,update,serial,reset,apply,state} incl. IO_TIMEOUT and refresh timers",
+                "rpki::rtr::client::Client::{new,with_initial_version,run,step,update,serial,reset,apply,state} incl. IO_TIMEOUT and refresh timers",
                 "rpki::rtr::server::{Server::run, Connection::*, NotifySender/NotifyReceiver}",
                 "rpki::rtr::pdu readers/writers, rpki::rtr::payload, rpki::rtr::state",
                 "tokio current-thread scheduler, paused clock (timers auto-advance), broadcast channel",
